@@ -263,6 +263,9 @@ pub fn parse_multi_branch_conditional(
     let mut branches: Vec<(Option<crate::ast::Condition>, Vec<Node>)> = Vec::new();
     let mut current_condition: Option<crate::ast::Condition> = None;
     let mut current_nodes = Vec::new();
+    // Each branch ends up in the else of the one before it (see
+    // `fold_conditional_branches`), so each one is a level deeper than the last.
+    let mut else_chain = Vec::new();
 
     while *line_index < lines.len() {
         let line = &lines[*line_index];
@@ -306,6 +309,7 @@ pub fn parse_multi_branch_conditional(
             if current_condition.is_some() || !current_nodes.is_empty() {
                 branches.push((current_condition.take(), current_nodes));
                 current_nodes = Vec::new();
+                else_chain.push(crate::nesting::enter()?);
             }
 
             let header = header.trim_start();
@@ -327,6 +331,7 @@ pub fn parse_multi_branch_conditional(
                 if current_condition.is_some() || !current_nodes.is_empty() {
                     branches.push((current_condition.take(), current_nodes));
                     current_nodes = Vec::new();
+                    else_chain.push(crate::nesting::enter()?);
                 }
                 current_condition = None;
                 // Construct a temporary line whose content is the part after `- ` so that
